@@ -560,6 +560,7 @@ type varOpts struct {
 	gapRich      bool
 	gffShapes    bool // unnamed parents with named children, rows without ID
 	allowPhase   bool
+	plusNames    bool // feature names may contain '+'
 	window       bool
 	agg          bool
 	bothFormats  bool // only genes expressible in both formats
@@ -578,6 +579,11 @@ func genVarCase(r *RNG, id string, o varOpts) *Case {
 	ng := r.Range(0, o.maxGenes)
 	for i := 0; i < ng; i++ {
 		if g, ok := randGene(r, L, i, o.allowPhase); ok {
+			if o.plusNames && r.Chance(1, 5) {
+				// a fusion product: '+' is an ordinary character of a name in both annotation formats
+				g.name += r.PickStr([]string{"+pol", "+", "+b+c"})
+				c.Tag("plus-in-feature-name")
+			}
 			genes = append(genes, g)
 		}
 	}
